@@ -399,7 +399,15 @@ impl Database {
 
         if dirty_regions.is_empty() {
             debug!("{}: flush (no dirty)", self);
-            self.layout_mut().promote_pending_holes(self.name());
+            let mut layout = self.layout_mut();
+            if layout.has_pending_holes() {
+                // A removed region's zeroed slot must be durable before its extent
+                // becomes reusable (or punchable), even when no region is dirty.
+                let regions = self.regions();
+                regions.flush()?;
+                regions.sync_data()?;
+            }
+            layout.promote_pending_holes(self.name());
             return Ok(0);
         }
 
